@@ -269,33 +269,70 @@ def _gen_raw_parse(private):
     return gen
 
 
-_PARSE_FIELDS = ["implies(returns(), result[0] == raw[0:4] and result[1] == raw[4] and result[2] == raw[5:9] and "
-                 "result[3] == int.from_bytes(raw[9:13], 'big') and result[4] == raw[13:45])"]
-
-contract("verif.harness.hd.priv_raw_parse", props=("C08",), nl_uf=True, params={"raw": "bytes:78"},
-         ensures=["implies(returns(), spec.hd.xkey_reject_reason(raw) is None)",                      # accepts only well-formed keys
-                  "implies(spec.hd.xkey_reject_reason(raw) is None and spec.hd.version_info(raw[0:4])[1] == 'prv', returns())",
-                  "implies(returns(), spec.hd.version_info(raw[0:4])[1] == 'prv')"] + _PARSE_FIELDS +
-                 ["implies(returns(), raw[45] == 0 and result[5] == int.from_bytes(raw[46:78], 'big'))",
-                  "implies(returns(), result[6] == spec.hd.version_info(raw[0:4])[2])",
-                  "implies(returns(), result[7] == spec.hd.version_pub('x' if result[6] == 'mainnet' else 't'))"],
-         gen=_gen_raw_parse(True))
-
-contract("verif.harness.hd.pub_raw_parse", props=("C08",), nl_uf=True, params={"raw": "bytes:78"},
-         ensures=["implies(returns(), spec.hd.xkey_reject_reason(raw) is None)",
-                  "implies(spec.hd.xkey_reject_reason(raw) is None and spec.hd.version_info(raw[0:4])[1] == 'pub', returns())",
-                  "implies(returns(), spec.hd.version_info(raw[0:4])[1] == 'pub')"] + _PARSE_FIELDS +
-                 ["implies(returns(), spec.hd.serP(result[5]) == raw[45:78])",
-                  "implies(returns(), result[6] == spec.hd.version_info(raw[0:4])[2])"],
-         gen=_gen_raw_parse(False))
-
-# round trips with symbolic fields: every version of the SLIP-132 table
 _PRV_VERS = [bytes.fromhex(v) for v in ("0488ade4", "049d7878", "04b2430c", "0295b005", "02aa7a99",
                                         "04358394", "044a4e28", "045f18bc", "024285b5", "02575048")]
 _PUB_VERS = [bytes.fromhex(v) for v in ("0488b21e", "049d7cb2", "04b24746", "0295b43f", "02aa7ed3",
                                         "043587cf", "044a5262", "045f1cf6", "024289ef", "02575483")]
 
 
+_UNKNOWN_VERS = [bytes(4), bytes.fromhex("0488b21f"), bytes.fromhex("0488ade3"), b"\xff" * 4]
+_RAW = "(version + rest)"
+_PARSE_FIELDS = ["implies(returns(), result[0] == version and result[1] == rest[0] and result[2] == rest[1:5] and "
+                 "result[3] == int.from_bytes(rest[5:9], 'big') and result[4] == rest[9:41])"]
+
+
+def _gen_parts(private):
+    def gen(rng, tier):
+        for d in _gen_raw_parse(private)(rng, tier):
+            yield {"version": d["raw"][:4], "rest": d["raw"][4:]}
+    return gen
+
+
+def _gen_unknown(rng, tier):
+    import verif.specs as s
+    for private in (True, False):
+        good, _ = _valid_raws(rng, private)
+        for v in _UNKNOWN_VERS:
+            yield {"version": v, "rest": good[0][4:]}
+        for g in good[:10]:
+            for bit in (0, 7, 8, 31):
+                v = (int.from_bytes(g[:4], "big") ^ (1 << bit)).to_bytes(4, "big")
+                yield {"version": v, "rest": g[4:]}
+    while True:
+        good, _ = _valid_raws(rng, rng.random() < 0.5)
+        yield {"version": rand_bytes(rng, 4), "rest": good[0][4:]}
+
+
+# raw_parse of ANY 74 bytes behind each known version (and some unknown ones): accepted exactly when BIP32 says the key is
+# well-formed, every field returned as it stands in the bytes
+contract("verif.harness.hd.priv_parse_parts", props=("C08",), nl_uf=True,
+         params={"version": ("choice", _PRV_VERS + _PUB_VERS[:1] + _PUB_VERS[5:6] + _UNKNOWN_VERS[:2]), "rest": "bytes:74"},
+         ensures=["implies(returns(), spec.hd.xkey_reject_reason%s is None)" % _RAW,                      # accepts only well-formed keys
+                  "implies(spec.hd.xkey_reject_reason%s is None and spec.hd.version_info(version)[1] == 'prv', returns())" % _RAW,
+                  "implies(returns(), spec.hd.version_info(version)[1] == 'prv')"] + _PARSE_FIELDS +
+                 ["implies(returns(), rest[41] == 0 and result[5] == int.from_bytes(rest[42:74], 'big'))",
+                  "implies(returns(), result[6] == spec.hd.version_info(version)[2])",
+                  "implies(returns(), result[7] == spec.hd.version_pub('x' if result[6] == 'mainnet' else 't'))"],
+         gen=_gen_parts(True))
+
+contract("verif.harness.hd.pub_parse_parts", props=("C08",), nl_uf=True,
+         params={"version": ("choice", _PUB_VERS + _PRV_VERS[:1] + _PRV_VERS[5:6] + _UNKNOWN_VERS[:2]), "rest": "bytes:74"},
+         ensures=["implies(returns(), spec.hd.xkey_reject_reason%s is None)" % _RAW,
+                  "implies(spec.hd.xkey_reject_reason%s is None and spec.hd.version_info(version)[1] == 'pub', returns())" % _RAW,
+                  "implies(returns(), spec.hd.version_info(version)[1] == 'pub')"] + _PARSE_FIELDS +
+                 ["implies(returns(), spec.hd.serP(result[5]) == rest[41:74])",
+                  "implies(returns(), result[6] == spec.hd.version_info(version)[2])"],
+         gen=_gen_parts(False))
+
+# every version outside the SLIP-132 table is refused by both parsers
+contract("verif.harness.hd.priv_parse_parts#unknown_version", props=("C08",), nl_uf=True,
+         params={"version": "bytes:4", "rest": "bytes:74"}, requires=["spec.hd.version_info(version) is None"],
+         ensures=["raises(ValueError)"], gen=_gen_unknown)
+contract("verif.harness.hd.pub_parse_parts#unknown_version", props=("C08",), nl_uf=True,
+         params={"version": "bytes:4", "rest": "bytes:74"}, requires=["spec.hd.version_info(version) is None"],
+         ensures=["raises(ValueError)"], gen=_gen_unknown)
+
+# round trips with symbolic fields: every version of the SLIP-132 table
 def _gen_rt(vers, pub):
     def gen(rng, tier):
         n = 0
@@ -323,3 +360,246 @@ contract("verif.harness.hd.pub_raw_roundtrip", props=("C08",), nl_uf=True,
                   "spec.curve.same(result[1], K) and result[2] == c and result[3] == depth and result[4] == fp and result[5] == num",
                   "result[6] == version", "result[7] == spec.hd.version_info(version)[2]"],
          gen=_gen_rt(_PUB_VERS, True))
+
+
+# ============================================================================ string level (bounded companion only)
+# pyvc has no symbolic strings: the contracts below are declared with the STR kind (the symbolic pass reports
+# `undecided` with that reason); props/C08.py runs them concretely over enumerated and seeded inputs.
+from .text import STR  # noqa: E402
+
+STRING_LEVEL = []
+
+
+def _s(name, **kw):
+    STRING_LEVEL.append(name)
+    return contract(name, props=("C08",), note="string-level: bounded companion only", **kw)
+
+
+def _slip_pairs():
+    import verif.specs as s
+    return [(L, s.hd.version_prv(L), s.hd.version_pub(L)) for L in s.hd.SLIP132]
+
+
+def _gen_text_rt(rng, tier):
+    """all 10 SLIP-132 letters (20 version prefixes) x the networks of their family x depth boundaries"""
+    import verif.specs as s
+    for (L, vprv, vpub) in _slip_pairs():
+        nets = ["mainnet"] if L in s.hd.MAINNET_LETTERS else ["testnet", "signet", "regtest"]
+        for net in nets:
+            for depth in (0, 1, 255):
+                yield {"k": rng.choice(KS + [rng.randrange(1, N)]), "c": rand_bytes(rng, 32), "depth": depth,
+                       "fp": bytes(4) if depth == 0 else rand_bytes(rng, 4),
+                       "num": 0 if depth == 0 else rng.choice([1, H - 1, H, 2**32 - 1]),
+                       "network": net, "priv_version": vprv, "pub_version": vpub}
+    while True:
+        L, vprv, vpub = rng.choice(_slip_pairs())
+        net = "mainnet" if L in s.hd.MAINNET_LETTERS else rng.choice(["testnet", "signet", "regtest"])
+        depth = rng.randrange(1, 256)
+        yield {"k": rng.randrange(1, N), "c": rand_bytes(rng, 32), "depth": depth, "fp": rand_bytes(rng, 4), "num": rng.getrandbits(32),
+               "network": net, "priv_version": vprv, "pub_version": vpub}
+
+
+_s("verif.harness.hd.xprv_roundtrip",
+   params=dict(_PRIV_PARAMS, network=STR, priv_version="bytes:4", pub_version="bytes:4"),
+   ensures=["returns()",
+            "result['xprv'] == spec.hd.b58_xkey(spec.hd.xprv_ser(priv_version, depth, fp, num, c, k))",
+            "result['xpub'] == spec.hd.b58_xkey(spec.hd.xpub_ser(pub_version, depth, fp, num, c, spec.curve.mul_G(k)))",
+            "result['xprv_again'] == result['xprv'] and result['xpub_again'] == result['xpub']",          # lossless text round trip
+            "result['a'][0] == k and result['a'][1] == c and result['a'][2] == depth and result['a'][3] == fp and result['a'][4] == num",
+            "spec.curve.same(result['b'][0], spec.curve.mul_G(k)) and result['b'][1:] == (c, depth, fp, num)",
+            "result['a_priv_version'] == priv_version and result['b_pub_version'] == pub_version",
+            "result['a_network'] == spec.hd.version_info(priv_version)[2] and result['b_network'] == spec.hd.version_info(pub_version)[2]",
+            # the imported private node is the same node: its public export keeps the SLIP-132 script type
+            "result['a_xpub'] == result['xpub']"],
+   gen=_gen_text_rt)
+
+# ---------------------------------------------------------------------------- paths
+_NUMS_OK = ["0", "1", "2147483647", "44", "007"]
+_NUMS_BAD = ["2147483648", "4294967295", "4294967296", "-1", "-0", "+1", "1_0", " 1", "", "x", "0x10", "1.0", "٣"]
+_MARKS = ["", "'", "h", "H"]
+_SEEDS = [bytes(range(16)), b"\xff" * 32, bytes(range(64))]
+
+
+def _valid_path(rng, depth, public=False, prefix=None):
+    comps = []
+    for _ in range(depth):
+        n = rng.choice(_NUMS_OK) if rng.random() < 0.7 else str(rng.randrange(2**31))
+        comps.append(n + ("" if public else rng.choice(_MARKS)))
+    return (prefix or rng.choice("mM")) + "".join("/" + c for c in comps)
+
+
+def _enum_paths(public=False):
+    """every path of depth <= 2 over the boundary alphabet, both prefixes; depth 3..8 are drawn by the caller"""
+    marks = [""] if public else _MARKS
+    comps = [n + mk for n in _NUMS_OK[:3] + ["2147483648", "4294967295"] for mk in marks]
+    out = ["m", "M"]
+    for p in "mM":
+        for a in comps:
+            out.append(p + "/" + a)
+    for a in comps:
+        for b in comps[::3]:
+            out.append("m/" + a + "/" + b)
+    return out
+
+
+def _malformed(rng):
+    base = _valid_path(rng, rng.randrange(1, 5), prefix="m")
+    comps = base.split("/")[1:]
+    i = rng.randrange(len(comps))
+    bad = list(comps)
+    bad[i] = rng.choice(_NUMS_BAD) + rng.choice(["", "'", "h"])
+    return rng.choice([
+        base + "/", base.replace("/", "//", 1), "m/" + "/".join(bad), " " + base, base + " ", base + "\n", "/" + base[2:], base[2:],
+        "mm" + base[1:], "n" + base[1:], "m" + base[2:], base + "''", base + "hh", base + "'h", "m/'", "m/h", "m/", "m//", "", "M/", "mh/0",
+        "m/" + "/".join(bad)])
+
+
+def _gen_traverse(public):
+    def gen(rng, tier):
+        for p in _enum_paths(public):
+            yield {"seed": rng.choice(_SEEDS), "path": p}
+        n = 0
+        while True:
+            n += 1
+            seed = rng.choice(_SEEDS) if n % 3 else rand_bytes(rng, rng.choice([16, 32, 64]))
+            if n % 4 == 0:
+                yield {"seed": seed, "path": _malformed(rng)}
+            else:
+                yield {"seed": seed, "path": _valid_path(rng, 3 + n % 6, public=public and n % 5 != 0)}
+    return gen
+
+
+_DP = "spec.hd.derive_priv(spec.hd.master(seed), spec.hd.path_indices(path))"
+_s("verif.harness.hd.traverse_priv", params={"seed": ("bytes", 16, 64), "path": STR},
+   requires=["spec.hd.master_defined(seed)", "spec.hd.path_indices(path) is None or %s is not None" % _DP],
+   ensures=["implies(spec.hd.path_valid(path), returns())",                         # every BIP32 path is derivable
+            "implies(returns(), spec.hd.path_indices(path) is not None)",          # and nothing else is taken for a path
+            "implies(returns() and spec.hd.path_indices(path) is not None, result[0:5] == %s)" % _DP,
+            "implies(returns() and spec.hd.path_indices(path) is not None, spec.curve.same(result[5], spec.curve.mul_G(%s[0])) and result[6:10] == %s[1:5])" % (_DP, _DP)],
+   gen=_gen_traverse(False))
+
+_DQ = "spec.hd.derive_pub(spec.hd.neuter(spec.hd.master(seed)), spec.hd.path_indices(path))"
+_s("verif.harness.hd.traverse_pub", params={"seed": ("bytes", 16, 64), "path": STR},
+   requires=["spec.hd.master_defined(seed)", "not spec.hd.path_is_public(path) or %s is not None" % _DQ],
+   ensures=["implies(spec.hd.path_valid(path) and spec.hd.path_is_public(path), returns())",
+            "implies(spec.hd.path_indices(path) is not None and not spec.hd.path_is_public(path), raises(ValueError))",   # hardened: refused
+            "implies(returns(), spec.hd.path_is_public(path))",
+            "implies(returns() and spec.hd.path_is_public(path), spec.curve.same(result[0], %s[0]) and result[1:5] == %s[1:5])" % (_DQ, _DQ)],
+   gen=_gen_traverse(True))
+
+
+def _gen_split(rng, tier):
+    n = 0
+    while True:
+        n += 1
+        public = n % 3 == 0
+        da, db = rng.randrange(0, 5), rng.randrange(0, 5)
+        a = _valid_path(rng, da, public=public)
+        b = _valid_path(rng, db, public=public, prefix="m")[1:]
+        yield {"seed": rng.choice(_SEEDS), "a": a, "b": b, "public": public}
+
+
+_s("verif.harness.hd.traverse_split", params={"seed": ("bytes", 16, 64), "a": STR, "b": STR, "public": "bool"},
+   requires=["spec.hd.path_valid(a + b)", "spec.hd.path_indices(a) is not None",
+             "spec.hd.derive_priv(spec.hd.master(seed), spec.hd.path_indices(a + b)) is not None"],
+   ensures=["implies(not public or spec.hd.path_is_public(a + b), returns())",
+            "implies(returns(), len(result) in (10, 20) and result[:len(result) // 2] == result[len(result) // 2:])"],
+   gen=_gen_split)
+
+
+def _gen_blind(rng, tier):
+    vers = [None] + [v for (_, _, v) in _slip_pairs()][:5]
+    n = 0
+    for a in ["m", "M", "m/48h/0h/0h/2h", "m/48'/0'/0'/2'", "M/48H/0H", "m/0", "m/2147483647h/1"]:
+        for b in ["m/0", "m/1/2147483647", "M/5", "m/1h", "m", "m/920870093/318569592/821713943/1914815254"]:
+            yield {"seed": _SEEDS[n % 3], "a": a, "b": b, "version": vers[n % len(vers)]}
+            n += 1
+    while True:
+        n += 1
+        a = _valid_path(rng, rng.randrange(0, 5))
+        b = _valid_path(rng, rng.randrange(0, 5), public=n % 7 != 0, prefix=None if n % 5 == 0 else "m")
+        yield {"seed": rng.choice(_SEEDS), "a": a, "b": b, "version": rng.choice(vers)}
+
+
+_s("verif.harness.hd.blind", params={"seed": ("bytes", 16, 64), "a": STR, "b": STR, "version": "bytes:4"},
+   requires=["spec.hd.path_valid(a) and spec.hd.path_indices(b) is not None and spec.hd.path_valid('m' + a[1:] + b[1:])",
+             "spec.hd.derive_priv(spec.hd.master(seed), spec.hd.path_indices(a)) is not None"],
+   ensures=["implies(spec.hd.path_is_public(b), returns())",
+            "implies(not spec.hd.path_is_public(b), raises(ValueError))",              # a hardened secret path cannot be applied to an xpub
+            "implies(returns(), result[0] == result[2])",                              # the blinded key IS the key at the combined path from the root
+            "implies(returns(), result[1] == result[3])",
+            "implies(returns(), spec.hd.path_indices(result[1]) == spec.hd.path_indices(a) + spec.hd.path_indices(b))"],
+   gen=_gen_blind)
+
+
+def _gen_valid(rng, tier):
+    for p in _enum_paths(False):
+        yield {"path": p}
+    for n in (254, 255, 256, 257):
+        yield {"path": "m" + "/0" * n}
+        yield {"path": "m" + "/1h" * n}
+    while True:
+        yield {"path": _malformed(rng) if rng.random() < 0.6 else _valid_path(rng, rng.randrange(0, 9))}
+
+
+_s("buidl.hd.is_valid_bip32_path", params={"path": STR},
+   ensures=["returns()", "result == spec.hd.path_valid(path)"], gen=_gen_valid)
+
+
+def _gen_combine(rng, tier):
+    ps = ["m", "M", "m/0", "m/1h", "m/1'", "M/1H/2", "m/2147483647/0", "m/007"]
+    for a in ps:
+        for b in ps:
+            yield {"first_path": a, "second_path": b}
+    while True:
+        a = _valid_path(rng, rng.randrange(0, 9)) if rng.random() < 0.8 else _malformed(rng)
+        b = _valid_path(rng, rng.randrange(0, 9)) if rng.random() < 0.8 else _malformed(rng)
+        yield {"first_path": a, "second_path": b}
+
+
+_VA, _VB = "spec.hd.path_indices(first_path)", "spec.hd.path_indices(second_path)"
+_s("buidl.blinding.combine_bip32_paths", params={"first_path": STR, "second_path": STR},
+   ensures=["implies(%s is None or %s is None, raises(ValueError))" % (_VA, _VB),
+            "implies(spec.hd.path_valid(first_path) and spec.hd.path_valid(second_path), returns())",
+            "implies(returns() and %s is not None and %s is not None, spec.hd.path_indices(result) == %s + %s)" % (_VA, _VB, _VA, _VB),
+            # normal form of the result: lower case, 'h' markers
+            "implies(returns(), result == result.lower() and \"'\" not in result)"],
+   gen=_gen_combine)
+
+
+def _gen_ltrim(rng, tier):
+    for p, d in [("m", 0), ("m/1", 0), ("m/1", 1), ("m/1", 2), ("m/1/2/3", 1), ("m/1/2/3h", 2), ("m/1/2/3h", 3), ("m/1/2/3h", 4),
+                 ("M/1H/2'", 1), ("m/0/1", -1), ("m", 1)]:
+        yield {"bip32_path": p, "depth": d}
+    while True:
+        n = rng.randrange(0, 9)
+        yield {"bip32_path": _valid_path(rng, n), "depth": rng.randrange(-1, n + 3)}
+
+
+_VP = "spec.hd.path_indices(bip32_path)"
+_s("buidl.hd.ltrim_path", params={"bip32_path": STR, "depth": "int"},
+   requires=["spec.hd.path_valid(bip32_path)"],
+   raises={"ValueError": "depth > len(%s) or depth < 0" % _VP},
+   ensures=["implies(returns(), spec.hd.path_indices(result) == %s[depth:])" % _VP],
+   gen=_gen_ltrim)
+
+
+def _gen_parse_text(rng, tier):
+    from verif.props.C08 import TV5, TV_VALID
+    for s_, _why in TV5:
+        yield {"s": s_}
+    for s_ in TV_VALID:
+        yield {"s": s_}
+    import verif.specs as s
+    while True:
+        private = rng.random() < 0.5
+        good, bad = _valid_raws(rng, private)
+        for r in bad + good[:6]:
+            yield {"s": s.hd.b58_xkey(r)}
+
+
+_s("verif.harness.hd.parse_text", params={"s": STR},
+   ensures=["implies(returns(), spec.hd.xkey_text_decode(s) is not None)",            # imports only well-formed extended keys
+            "implies(returns() and spec.hd.xkey_text_decode(s) is not None, result[1] == spec.hd.xkey_text_decode(s))",   # and loses nothing
+            "implies(spec.hd.xkey_text_decode(s) is not None, returns())"],
+   gen=_gen_parse_text)
